@@ -234,7 +234,8 @@ def stochastic_raytracing(  # TODO: add test
             light = light and not grid[pos].blocks_vision
 
     probs = np.nan_to_num(counts_num / counts_den)
-    visibility = rng.random(probs.shape) <= probs
+    # NOTE: samples lie in [0, 1);  strict comparison never shows probability 0
+    visibility = rng.random(probs.shape) < probs
     return visibility
 
 
